@@ -773,3 +773,258 @@ func checkRequiredFieldsIndependent(c *Ctx, rule string) {
 		c.Check(rule, "AddRequiredFields/always-adds-"+k, arf.Pos(), want[k], "every integration gets the "+k+" selector and column unconditionally")
 	}
 }
+
+// checkCachePerRoutine: each segment cache of the client is filled by exactly
+// one fetch routine and each routine fills its own cache (a cache shared by
+// the header and the block routine would serve header-only blocks to a plan
+// that needs transactions, and vice versa).
+func checkCachePerRoutine(c *Ctx, rule string) {
+	w := c.W
+	cget := w.Fn("jrpc2", "(*cache).get")
+	byCache := map[*types.Var]map[string]bool{}
+	byRoutine := map[string]map[*types.Var]bool{}
+	n := 0
+	for _, fn := range w.RepoFuncs() {
+		for _, call := range callsToFn(fn, cget) {
+			n++
+			f, _ := fieldOf(call.Call.Args[0])
+			var rout string
+			for _, a := range call.Call.Args {
+				if mc, ok := stripConv(a).(*ssa.MakeClosure); ok {
+					if obj, ok := mc.Fn.(*ssa.Function).Object().(*types.Func); ok && obj != nil {
+						rout = obj.Name()
+					}
+				}
+				if fnv, ok := stripConv(a).(*ssa.Function); ok {
+					rout = fnv.Name()
+				}
+			}
+			if f == nil || rout == "" {
+				c.Violation(rule, fmt.Sprintf("%s/cache.get#%d", fnName(fn), n), call.Pos(), "cannot identify the cache field or the fetch routine of this cached fetch")
+				continue
+			}
+			if byCache[f] == nil {
+				byCache[f] = map[string]bool{}
+			}
+			byCache[f][rout] = true
+			if byRoutine[rout] == nil {
+				byRoutine[rout] = map[*types.Var]bool{}
+			}
+			byRoutine[rout][f] = true
+		}
+	}
+	for f, rs := range byCache {
+		var names []string
+		for r := range rs {
+			names = append(names, r)
+		}
+		c.Check(rule, "cache "+f.Name()+"/one-routine", f.Pos(), len(rs) == 1, fmt.Sprintf("cache %s is filled by %v", f.Name(), names))
+	}
+	for r, fs := range byRoutine {
+		c.Check(rule, "routine "+r+"/one-cache", cget.Pos(), len(fs) == 1, fmt.Sprintf("routine %s fills %d caches", r, len(fs)))
+	}
+	if n < 2 {
+		c.Violation(rule, "cached-fetches", cget.Pos(), fmt.Sprintf("expected >= 2 cached fetches, found %d", n))
+	}
+}
+
+// checkLogsGrouping: in (*Client).logs every log is attached to the block and
+// transaction selected by that log's OWN blockNumber and transactionIndex.
+// Accepted idiom: logs are grouped in a map keyed by a struct built from the
+// BlockNum and TxIdx fields of the very element that is stored under the key,
+// the block is looked up by the key's first field and the transaction by its
+// second.  Anything else (e.g. runs of equal transactionIndex across blocks)
+// can file a log under another block.
+func checkLogsGrouping(c *Ctx, rule string) {
+	w := c.W
+	fn := w.Fn("jrpc2", "(*Client).logs")
+	var group *ssa.MapUpdate
+	okKey := false
+	allInstrs(fn, func(in ssa.Instruction) {
+		mu, ok := in.(*ssa.MapUpdate)
+		if !ok {
+			return
+		}
+		// value: a slice containing Result[i] ; key: struct{BlockNum(Result[i]), TxIdx(Result[i])}
+		ku, ok := mu.Key.(*ssa.UnOp)
+		if !ok {
+			return
+		}
+		ka, ok := ku.X.(*ssa.Alloc)
+		if !ok {
+			return
+		}
+		fields := map[int]ssa.Value{}
+		for _, ref := range *ka.Referrers() {
+			if fa, ok := ref.(*ssa.FieldAddr); ok {
+				for _, r2 := range *fa.Referrers() {
+					if st, ok := r2.(*ssa.Store); ok {
+						fields[fa.Field] = st.Val
+					}
+				}
+			}
+		}
+		if len(fields) != 2 {
+			return
+		}
+		r0, c0 := fieldChain(fields[0])
+		r1, c1 := fieldChain(fields[1])
+		if len(c0) == 0 || len(c1) == 0 || c0[len(c0)-1].Name() != "BlockNum" || c1[len(c1)-1].Name() != "TxIdx" {
+			return
+		}
+		s0, i0, ok0 := elemOf(r0)
+		s1, i1, ok1 := elemOf(r1)
+		if !ok0 || !ok1 || i0 != i1 || !sameVar(s0, s1) {
+			return
+		}
+		// the stored value contains that same element
+		contains := false
+		var walk func(v ssa.Value, d int)
+		walk = func(v ssa.Value, d int) {
+			if d > 6 || v == nil {
+				return
+			}
+			if s, i, ok := elemOf(v); ok && i == i0 && sameVar(s, s0) {
+				contains = true
+				return
+			}
+			switch x := v.(type) {
+			case *ssa.Call:
+				for _, a := range x.Call.Args {
+					walk(a, d+1)
+				}
+			case *ssa.Slice:
+				if vs, ok := varargValues(x); ok {
+					for _, e := range vs {
+						walk(e, d+1)
+					}
+				}
+			case *ssa.Phi:
+				for _, e := range x.Edges {
+					walk(e, d+1)
+				}
+			}
+		}
+		walk(mu.Value, 0)
+		if contains {
+			group = mu
+			okKey = true
+		}
+	})
+	c.Check(rule, "logs/grouped-by-own-block-and-tx", fn.Pos(), okKey, "logs are grouped under key{blockNumber, transactionIndex} of the log itself")
+	if group == nil {
+		return
+	}
+	// consumption: range over that map; block = bm[k.a]; tx = b.Tx(k.b); Add(logs[j].Log)
+	okUse := false
+	for _, ci := range callsIn(fn) {
+		call, ok := ci.(*ssa.Call)
+		if !ok {
+			continue
+		}
+		cal := staticCallee(call)
+		if cal == nil || cal.Name() != "Add" || !repoNamedIs(cal.Signature.Recv().Type(), "eth", "Logs") {
+			continue
+		}
+		// receiver: &tx.Logs with tx = b.Tx(K.b), b = bm[K.a]
+		txv, _ := fieldChain(call.Call.Args[0])
+		txCall, _ := txv.(*ssa.Call)
+		if txCall == nil || staticCallee(txCall) == nil || staticCallee(txCall).Name() != "Tx" {
+			continue
+		}
+		kb := txCall.Call.Args[1]
+		bv := txCall.Call.Args[0]
+		if e, ok := bv.(*ssa.Extract); ok {
+			bv = e.Tuple
+		}
+		lk, ok := bv.(*ssa.Lookup)
+		if !ok {
+			continue
+		}
+		ra, ca := fieldChain(lk.Index)
+		rb, cb := fieldChain(kb)
+		if len(ca) != 1 || len(cb) != 1 || ca[0].Name() != "a" || cb[0].Name() != "b" || ra != rb {
+			// same key value, first and second field
+			if !(len(ca) == 1 && len(cb) == 1 && sameVar(ra, rb)) {
+				continue
+			}
+		}
+		// the key is the range key of the grouping map, the log comes from the range value
+		fromRange := func(v ssa.Value, idx int) bool {
+			if a, isA := v.(*ssa.Alloc); isA {
+				if cv := cellValue(a); cv != nil {
+					v = cv
+				}
+			}
+			e, ok := v.(*ssa.Extract)
+			if !ok || e.Index != idx {
+				return false
+			}
+			nx, ok := e.Tuple.(*ssa.Next)
+			if !ok {
+				return false
+			}
+			rg, ok := nx.Iter.(*ssa.Range)
+			return ok && sameVar(rg.X, group.Map)
+		}
+		keyOK := fromRange(ra, 1)
+		logRoot, _ := fieldChain(call.Call.Args[1])
+		ls, _, lok := elemOf(logRoot)
+		valOK := lok && fromRange(ls, 2)
+		if keyOK && valOK {
+			okUse = true
+		}
+	}
+	c.Check(rule, "logs/attached-to-own-block-and-tx", fn.Pos(), okUse, "each group is attached to bm[key.block].Tx(key.tx)")
+}
+
+// checkDecoderRowsCleared: a row handed out by (*Result).GetRow was cleared
+// on every path (rows are reused between logs; an empty dynamic value writes
+// nothing, so an uncleared row keeps the previous log's bytes), and Scan
+// resets the row counter and the scalar row first.
+func checkDecoderRowsCleared(c *Ctx, rule string) {
+	w := c.W
+	gr := w.Fn("dig", "(*Result).GetRow")
+	n := 0
+	for _, r := range returnsOf(gr) {
+		n++
+		v := returnValues(r)[0]
+		s, idx, ok := elemOf(v)
+		good := false
+		if ok {
+			for _, ci := range callsNamed(gr, "builtin clear") {
+				cs, cidx, cok := elemOf(ci.Common().Args[0])
+				if cok && sameVar(cs, s) && sym(cidx) == sym(idx) && dominatesInstr(ci, r) {
+					// no store to the collection between clear and return that could move the row
+					good = true
+				}
+			}
+		}
+		c.Check(rule, fmt.Sprintf("Result.GetRow/return#%d-cleared", n), instrPos(r), good, "the returned row collection[n-1] is cleared on every path before it is handed out")
+	}
+	sc := w.Fn("dig", "(*Result).Scan")
+	scan := w.Fn("dig", "scan")
+	calls := callsToFn(sc, scan)
+	okReset := len(calls) == 1
+	if okReset {
+		fN := w.Field("dig", "Result", "n")
+		fSing := w.Field("dig", "Result", "singleton")
+		resetN, clearS := false, false
+		allInstrs(sc, func(in ssa.Instruction) {
+			switch x := in.(type) {
+			case *ssa.Store:
+				if f, _ := fieldOf(x.Addr); f == fN {
+					if k, ok := constInt(x.Val); ok && k == 0 && dominatesInstr(x, calls[0]) {
+						resetN = true
+					}
+				}
+			case *ssa.Call:
+				if calleeName(x) == "builtin clear" && isLoadOfField(x.Call.Args[0], fSing) && dominatesInstr(x, calls[0]) {
+					clearS = true
+				}
+			}
+		})
+		okReset = resetN && clearS
+	}
+	c.Check(rule, "Result.Scan/reset-before-decode", sc.Pos(), okReset, "Scan resets the row counter and clears the scalar row before decoding (one decoder instance is reused for every log)")
+}
